@@ -36,7 +36,7 @@ NoTasks == [t \in {} |-> 0]
 TrInit ==
     /\ def = NoTasks /\ executing = {} /\ forks = {} /\ taskToForkKeys = NoTasks
     /\ ingest = <<>> /\ taskEdge = NoTasks /\ delivered = NoTasks
-    /\ written = <<>> /\ status = <<>> /\ nl = 0
+    /\ written = <<>> /\ status = <<>> /\ nl = 0 /\ dead = {} /\ died = {}
     /\ l = 1 /\ inflight = {} /\ HWInit
 
 TrReset ==
@@ -48,6 +48,7 @@ TrReset ==
     /\ taskEdge' = [t \in DOMAIN Ln.tasks |-> <<>>]
     /\ delivered' = [t \in DOMAIN Ln.tasks |-> EmptyDelivered(Ln.tasks[t])]
     /\ written' = <<>> /\ status' = <<>> /\ nl' = 0 /\ inflight' = {}
+    /\ dead' = {} /\ died' = {}
 
 (* a failed clause names itself in TLC's output (triage aid) *)
 Chk(name, cond) == IF cond THEN TRUE ELSE PrintT(<<"C02-FAILED-CLAUSE", name, "line", l>>) /\ FALSE
@@ -66,9 +67,18 @@ DoLc(op, t) ==
       [] op = "startfail" -> StartTaskFail(t)
       [] op = "stop"   -> StopTask(t)
       [] op = "delete" -> DeleteTask(t)
+(* A task defined with dies = TRUE fails at run time (its httpOut route is      *)
+(* refused) and is not stopped by anybody: the task itself is out of the verdict *)
+(* (stopping it reports its error; what it received before dying is only checked  *)
+(* for order, identity and foreignness), every other task must be unaffected.      *)
+Dies(t) == Get(def[t], "dies", FALSE)
+LcRetOK(r) ==
+    CASE r.op = "startfail" -> r.ret # "ok"
+      [] r.op \in {"stop", "delete"} /\ Dies(r.t) -> TRUE
+      [] OTHER -> r.ret = "ok"
 TrLc ==
     /\ IsEv("Lc") /\ Ln.t \in T
-    /\ Chk("lifecycle call returned as expected", (Ln.ret = "ok") = (Ln.op # "startfail"))
+    /\ Chk("lifecycle call returned as expected", LcRetOK(Ln))
     /\ DoLc(Ln.op, Ln.t)
     /\ UNCHANGED inflight
 
@@ -91,10 +101,10 @@ SinkOK(t, k, q) ==
            \A i \in DOMAIN q :
                /\ q[i].sig = Sig(written[q[i].s])
                /\ q[i].grp = Grp(def[t].froms[k], written[q[i].s]))
-    /\ Chk("OrderPreserved / at most once", \A i, j \in DOMAIN q : i < j => q[i].s < q[j].s)
+    /\ Chk("OrderPreserved / at most once", \A i \in 1..(Len(q) - 1) : q[i].s < q[i + 1].s)
     /\ Chk("ExactlyOnce",
            \A s \in DOMAIN written :
-               (status[s][t] = "must" /\ Selected(t, k, written[s]) /\ ~InIngest(s))
+               (status[s][t] = "must" /\ ~Dies(t) /\ Selected(t, k, written[s]) /\ ~InIngest(s))
                    => \E i \in DOMAIN q : q[i].s = s)
 
 (* the published statistics show no live input edge of a non-executing task with *)
@@ -112,13 +122,13 @@ TrObsV ==
 TrSyncV ==
     /\ IsEv("Sync") /\ inflight = {}
     /\ ingest' = <<>>
-    /\ UNCHANGED <<def, executing, forks, taskToForkKeys, taskEdge, delivered, written, status, nl, inflight>>
+    /\ UNCHANGED <<def, executing, forks, taskToForkKeys, taskEdge, delivered, written, status, nl, inflight, dvars>>
 
 (* the writer goroutine saw its own fence: its points up to `upto` are forked *)
 TrSyncUptoV ==
     /\ IsEv("SyncUpto")
     /\ ingest' = SelectSeq(ingest, LAMBDA p : p.seq > Ln.upto)
-    /\ UNCHANGED <<def, executing, forks, taskToForkKeys, taskEdge, delivered, written, status, nl, inflight>>
+    /\ UNCHANGED <<def, executing, forks, taskToForkKeys, taskEdge, delivered, written, status, nl, inflight, dvars>>
 
 (* concurrent mode: calls are logged as Call/Ret pairs *)
 TrWrCallV ==
@@ -132,10 +142,10 @@ TrLcCallV ==
     /\ IsEv("LcCall") /\ Ln.t \in T
     /\ inflight' = inflight \cup {Ln.t}
     /\ status' = MarkRacy(Ln.t)
-    /\ UNCHANGED <<def, executing, forks, taskToForkKeys, ingest, taskEdge, delivered, written, nl>>
+    /\ UNCHANGED <<def, executing, forks, taskToForkKeys, ingest, taskEdge, delivered, written, nl, dvars>>
 TrLcRetV ==
     /\ IsEv("LcRet") /\ Ln.t \in inflight
-    /\ Chk("lifecycle call succeeded", Ln.ret = "ok")
+    /\ Chk("lifecycle call returned as expected", LcRetOK(Ln))
     /\ DoLc(Ln.op, Ln.t)
     /\ inflight' = inflight \ {Ln.t}
 
@@ -155,7 +165,7 @@ TrObsI ==
     /\ IsEv("Obs") /\ Ln.t \in T /\ Ln.t \notin executing
     /\ Ln.orphan_edges <= 0
     /\ Len(Ln.sinks) = Len(def[Ln.t].froms)
-    /\ \A k \in DOMAIN Ln.sinks : [i \in DOMAIN Ln.sinks[k] |-> Ln.sinks[k][i].s] = delivered[Ln.t][k]
+    /\ Dies(Ln.t) \/ \A k \in DOMAIN Ln.sinks : [i \in DOMAIN Ln.sinks[k] |-> Ln.sinks[k][i].s] = delivered[Ln.t][k]
     /\ UNCHANGED <<vars, inflight>>
 
 (* Partial-order reduction: forking a point that NO task of the trace is ever    *)
